@@ -63,12 +63,47 @@ let print_api_state op (a : api) =
   let zi z = BZ.to_string (z_of_coqz z) in
   Printf.printf "R %s OK rv=0 qstatus=%s factorok=%d cache=%d" op (zi a.a_qstatus) (if a.a_factorok then 1 else 0) (match a.a_cache with Some _ -> 1 | None -> 0);
   (match a.a_cache with Some c -> Printf.printf " cache_dims=%d,%d" (List.length c.ca_x) (List.length c.ca_pi) | None -> ());
-  (match a.a_basis with Some b -> Printf.printf " basis=%d,%d" (List.length b.ba_c) (List.length b.ba_r) | None -> print_string " basis=-");
+  (match a.a_basis with Some b -> Printf.printf " basis=%d,%d rownorms=%d" (List.length b.ba_c) (List.length b.ba_r) (if a.a_rn then 1 else 0) | None -> print_string " basis=-");
   print_newline ()
 
+(* L2 layer (C06): per handle, the concrete column store (Store.Matrix) replayed next to the reference model.
+   L2ok s = tracked; L2bad why = the model left the domain (Fault / Rej on a call the reference model accepted) *)
+type l2state = L2ok of lstore | L2bad of string
+let l2t : (int, l2state) Hashtbl.t = Hashtbl.create 16
+let l2_set h (r : lstore res) what = Hashtbl.replace l2t h (match r with Ok s -> L2ok s | Rej -> L2bad ("REJ " ^ what) | Fault -> L2bad ("FAULT " ^ what))
+let put_line tag (body : string) n full =
+  if (not full) && String.length body > 400 then begin
+    let h = ref (-3750763034362895579L) (* 14695981039346656037 *) in
+    String.iter (fun c -> h := Int64.mul (Int64.logxor !h (Int64.of_int (Char.code c))) 1099511628211L) body;
+    Printf.printf "%s #%016Lx n=%d\n" tag !h n end
+  else print_endline (tag ^ body)
+let print_l2 (s : lstore) full =
+  let a = s.lA in
+  let ints l = String.concat "" (List.map (fun n -> " " ^ string_of_int (int_of_nat n)) l) in
+  let msz = List.length a.slots in
+  Printf.printf "MAT matcols=%d matrows=%d matsize=%d matfree=%d matcolsize=%d nstruct=%d nrows=%d ncols=%d nzcount=%d\n"
+    (List.length a.beg) (int_of_nat a.mrows) msz (int_of_nat a.mfree) (int_of_nat a.colsize)
+    (List.length s.smap) (List.length s.rmap) (List.length a.beg) (int_of_nat s.nzc);
+  print_endline ("BEG" ^ ints a.beg);
+  print_endline ("CNT" ^ ints a.cnt);
+  put_line "IND" (String.concat "" (List.map (fun (i, _) -> " " ^ BZ.to_string (z_of_coqz i)) a.slots)) msz full;
+  let live = Array.make (msz + 1) false in
+  List.iter2 (fun b c -> let b = int_of_nat b and c = int_of_nat c in
+               for k = 0 to c - 1 do if b + k >= 0 && b + k < msz then live.(b + k) <- true done) a.beg a.cnt;
+  put_line "VAL" (String.concat "" (List.mapi (fun k (_, v) -> if live.(k) then " " ^ print_q v else " _") a.slots)) msz full;
+  print_endline ("SMAP" ^ ints s.smap);
+  print_endline ("RMAP" ^ ints s.rmap);
+  (* model side only (the check strips this line before comparing): the executable representation invariant of the state *)
+  print_endline ("WF " ^ (if List.length a.beg <= 60 then string_of_bool (lwf_check s) else "skipped"));
+  print_endline "END"
+
 let on op h (o : pop) =
+  let p0 = get_h !st (nat_of_int h) in
   let (s', r) = sstep !sentinel !st (SOn (nat_of_int h, o)) in
   st := s';
+  (match r, p0, Hashtbl.find_opt l2t h with
+   | ROk _, Some p, Some (L2ok l) -> l2_set h (l2_step_c p l o) op
+   | _ -> ());
   (match Hashtbl.find_opt ast h with
    | Some a -> let (a', _) = api_edit !sentinel a o in Hashtbl.replace ast h a'
    | None -> ());
@@ -83,10 +118,10 @@ let exec (toks : string list) =
       match op with
       | "CASE" -> print_endline ("CASE " ^ (match rest with t :: _ -> t | [] -> "?"))
       | "ECHO" -> print_endline (String.concat " " toks)
-      | "RESET" -> st := []; Hashtbl.reset ast; print_endline "R RESET OK rv=0"
+      | "RESET" -> st := []; Hashtbl.reset ast; Hashtbl.reset l2t; print_endline "R RESET OK rv=0"
       | "CREATE" ->
         let h = handle (tk ()) in let _nm = tk () in let c = objsense_code (tk ()) in
-        let (s', r) = sstep !sentinel !st (SCreate (nat_of_int h, c)) in st := s'; api_reset h; print_result op r
+        let (s', r) = sstep !sentinel !st (SCreate (nat_of_int h, c)) in st := s'; api_reset h; Hashtbl.replace l2t h (L2ok empty_lstore); print_result op r
       | "LOAD" ->
         let h = handle (tk ()) in let _nm = tk () in let c = objsense_code (tk ()) in
         let nc = tk_int () in let nr = tk_int () in
@@ -95,12 +130,16 @@ let exec (toks : string list) =
           let nm = name_opt (tk ()) in let o = tk_q () in let l = tk_q () in let u = tk_q () in let e = tk_ent () in
           ((((o, l), u), nm), e)) in
         let rows = tk_list nr (fun () -> let nm = name_opt (tk ()) in let s = code_char (tk ()) in let rhs = tk_q () in ((nm, s), rhs)) in
-        let (s', r) = sstep !sentinel !st (SLoad (nat_of_int h, c, cols, rows)) in st := s'; api_reset h; print_result op r
-      | "FREE" -> let h = handle (tk ()) in let (s', r) = sstep !sentinel !st (SFree (nat_of_int h)) in st := s'; api_reset h; print_result op r
+        let (s', r) = sstep !sentinel !st (SLoad (nat_of_int h, c, cols, rows)) in st := s'; api_reset h;
+        (match r with ROk _ -> l2_set h (l2_load_c cols rows) op | _ -> Hashtbl.remove l2t h);
+        print_result op r
+      | "FREE" -> let h = handle (tk ()) in let (s', r) = sstep !sentinel !st (SFree (nat_of_int h)) in st := s'; api_reset h; Hashtbl.remove l2t h; print_result op r
       | "COPY" ->
         let h = handle (tk ()) in let h2 = handle (tk ()) in
         let (s', r) = sstep !sentinel !st (SCopy (nat_of_int h, nat_of_int h2)) in
-        st := s'; (if h <> h2 then api_reset h2); (match r with RSkip when h = h2 -> print_endline "R COPY SKIP samehandle" | _ -> print_result op r)
+        st := s'; (if h <> h2 then api_reset h2);
+        (match r, get_h !st (nat_of_int h) with ROk _, Some p when h <> h2 -> l2_set h2 (l2_copy_c p) op | _ -> ());
+        (match r with RSkip when h = h2 -> print_endline "R COPY SKIP samehandle" | _ -> print_result op r)
       | "NEWCOL" ->
         let h = handle (tk ()) in let o = tk_q () in let l = tk_q () in let u = tk_q () in let nm = name_opt (tk ()) in
         on op h (NewCol (o, l, u, nm))
@@ -203,14 +242,15 @@ let exec (toks : string list) =
                 (print_q a.pa_maxtime) (print_q a.pa_ulim) (print_q a.pa_llim))
          | _ -> print_endline "R Q NA")
       | "SOLVE" ->
-        (* SOLVE h PRIMAL|DUAL ORACLE <status> <cstat> <rstat> PI <pi...> : the real solver's answer is the oracle of the Api model *)
+        (* SOLVE h PRIMAL|DUAL ORACLE <status> <cstat> <rstat> RN <0|1> PI <pi...> : the real solver's answer is the oracle of the Api model
+           (RN: the basis grabbed after the solve carries row norms) *)
         let h = handle (tk ()) in
         let w = tk () in
         (match Hashtbl.find_opt ast h, w with
          | Some a, ("PRIMAL" | "DUAL") ->
            (match !cur with
-            | "ORACLE" :: stt :: cs :: rs :: "PI" :: pis ->
-              let ans = { an_status = z_of_tok stt; an_basis = mk_basis cs rs; an_sol = mk_cache a.a_p (List.map q_of_string pis) } in
+            | "ORACLE" :: stt :: cs :: rs :: "RN" :: rn :: "PI" :: pis ->
+              let ans = { an_status = z_of_tok stt; an_basis = mk_basis cs rs; an_sol = mk_cache a.a_p (List.map q_of_string pis); an_rn = (rn = "1") } in
               let (a', err) = api_solve a (w = "DUAL") ans in
               Hashtbl.replace ast h a';
               print_endline (if err then "R SOLVE ERR" else "R SOLVE OK rv=0")
@@ -224,18 +264,31 @@ let exec (toks : string list) =
          | None -> print_endline "R MLOADBASIS SKIP nohandle")
       | "SYNC" ->
         (* adopt the observed state after a call the Api model does not predict (QSexact_solver):
-           SYNC h <qstatus> <factorok> <cache 0|1> <cstat|-|none> <rstat> PI <pi...> *)
+           SYNC h <qstatus> <factorok> <cache 0|1> <cstat|-|none> <rstat> RN <0|1> PI <pi...> *)
         let h = handle (tk ()) in let qs_ = tk_z () in let f = tk_int () in let c = tk_int () in let cs = tk () in let rs = tk () in
+        let rn = (match !cur with "RN" :: r :: rest -> cur := rest; r = "1" | _ -> false) in
         let pis = (match !cur with "PI" :: r -> List.map q_of_string r | _ -> []) in
         (match Hashtbl.find_opt ast h with
          | Some a ->
            Hashtbl.replace ast h { a_p = a.a_p; a_basis = (if cs = "none" then None else Some (mk_basis cs rs));
-                                   a_cache = (if c = 1 then Some (mk_cache a.a_p pis) else None); a_qstatus = qs_; a_factorok = (f = 1) };
+                                   a_cache = (if c = 1 then Some (mk_cache a.a_p pis) else None); a_qstatus = qs_; a_factorok = (f = 1); a_rn = rn };
            print_endline "R SYNC OK rv=0"
          | None -> print_endline "R SYNC SKIP nohandle")
       | "STATE" ->
         let h = handle (tk ()) in
         (match Hashtbl.find_opt ast h with Some a -> print_api_state op a | None -> print_endline "R STATE SKIP nohandle")
+      | "DUMPM" | "DUMPMF" ->
+        let h = handle (tk ()) in
+        (match Hashtbl.find_opt l2t h with
+         | Some (L2ok l) -> print_l2 l (op = "DUMPMF")
+         | Some (L2bad why) -> print_endline ("MAT " ^ why); print_endline "END"
+         | None -> print_endline ("R " ^ op ^ " SKIP nohandle"))
+      | "WFM" ->
+        (* the executable representation invariant on the model's own state *)
+        let h = handle (tk ()) in
+        (match Hashtbl.find_opt l2t h with
+         | Some (L2ok l) -> Printf.printf "R WFM OK rv=0 %b\n" (lwf_check l)
+         | _ -> print_endline "R WFM SKIP nohandle")
       | "DUMP" ->
         let h = handle (tk ()) in
         (match get_h !st (nat_of_int h) with
@@ -259,6 +312,7 @@ let () =
       (* the C side runs the next n lines in a forked child: their effect on the state is discarded *)
       let saved = !st in
       let saved_a = Hashtbl.copy ast in
+      let saved_l2 = Hashtbl.copy l2t in
       let n = (try int_of_string n with _ -> 0) in
       (try
          for _ = 1 to n do
@@ -272,6 +326,7 @@ let () =
        with Exit -> ());
       st := saved;
       Hashtbl.reset ast; Hashtbl.iter (fun k v -> Hashtbl.replace ast k v) saved_a;
+      Hashtbl.reset l2t; Hashtbl.iter (fun k v -> Hashtbl.replace l2t k v) saved_l2;
       print_endline "FORKEND OK";
       loop ()
     | Some [ "KKTU"; id ] ->
